@@ -481,6 +481,20 @@ def final_state_monitors(props, start_dump, oplist, leaf):
         for x in d['rp_traits'] + d['rp_aggs']:
             if x[0] not in d['rps'] or str(x[1]).startswith('?'):
                 out.append(('c08:race:dangling-association:%s' % kinds, str(x)))
+    if 'C12' in props:
+        sts = [r.status if r is not None else None for r in leaf['responses']]
+        holders = {x[1] for x in d['allocs']}
+        race = 'new-consumer-race' if new_consumer_race(start_dump, oplist) else 'existing-consumer'
+        for u in sorted(holders - set(d['consumers'])):
+            creators = set(leaf.get('consumer_creators') or [])
+            removers = {i for (i, m, st) in leaf['trace'] if ('DELETE', 'consumers') in [tuple(x) for x in st] and not ok(sts[i])}
+            who = 'removed-by-creator' if removers and removers <= creators else \
+                ('removed-by-non-creator' if removers else 'removed-by-successful-request')
+            out.append(('c12:race:%s:allocations-without-consumer:%s' % (race, who), u))
+        for u in sorted(set(d['consumers']) - holders):
+            if u in start_dump['consumers'] and u not in {x[1] for x in start_dump['allocs']}:
+                continue
+            out.append(('c12:race:%s:consumer-without-allocations' % race, u))
     if 'C09' in props:
         for e in mon.forest_errors(d['rps']):
             out.append(('c09:race:forest:%s' % kinds, e))
